@@ -53,6 +53,8 @@ def cases(tier, seed):
         for layout in ("sparse", "dense") if tier == "thorough" else ("sparse",):
             out.append(dict(mode="model", res=res, rot=rot, layout=layout))
             out.append(dict(mode="model", res=res, rot=rot, layout=layout, numrec=2))
+    # releases by lon/lat and lon/lat output on a grid across the date line stored in the 0..360 convention
+    out.append(dict(mode="model", res=RES[seed % 3], rot=ROT[(seed + 2) % 4], layout="sparse", lon0=190.0))
     if tier == "quick":
         out.append(dict(mode="model", res=RES[seed % 3], rot=ROT[seed % 2], layout="dense", numrec=2))
         out.append(dict(mode="model", res=RES[(seed + 1) % 3], rot=ROT[seed % 2], layout="dense"))
@@ -202,7 +204,7 @@ def run_grid(case):
 
 def run_model(case):
     imax, jmax = 12, 10
-    lon, lat = polar_grid(imax, jmax, case["res"], case["rot"])
+    lon, lat = polar_grid(imax, jmax, case["res"], case["rot"], case.get("lon0", 10.0))
     w = world.World(imax=imax, jmax=jmax, N=2, h=50.0, dx=case["res"], lonlat=(lon, lat))
     d = util.scratch("c16")
     dt = 600
